@@ -132,7 +132,7 @@ func GenView(r *Rng, o TreeOpts) []*MNode {
 			st.Size = int64(sz)
 			files = append(files, node)
 		}
-		if o.Xattrs && r.Chance(20) && st.Mode&uint32(os.ModeSymlink) == 0 {
+		if o.Xattrs && r.Chance(20) && (os.FileMode(st.Mode).IsDir() || os.FileMode(st.Mode)&os.ModeType == 0) {
 			st.Xattrs = map[string][]byte{"user.k" + string(rune('a'+r.Intn(3))): fillContent(r, r.Intn(6))}
 			if r.Chance(30) {
 				st.Xattrs["user.z"] = []byte{0, 1, 2}
@@ -161,13 +161,15 @@ func GenView(r *Rng, o TreeOpts) []*MNode {
 		}
 		visit("", root)
 		groups := 1 + r.Intn(2)
+		used := map[*MNode]bool{}
 		for g := 0; g < groups; g++ {
 			sz := 2 + r.Intn(3)
 			var members []*MNode
 			for k := 0; k < sz; k++ {
 				f := Pick(r, files)
-				if f.Stat.Linkname == "" {
+				if f.Stat.Linkname == "" && !used[f] {
 					members = append(members, f)
+					used[f] = true
 				}
 			}
 			if len(members) < 2 {
